@@ -210,12 +210,7 @@ func runC01(c *kit.Ctx) {
 				c.Check(allowed[kit.FuncName(fn)], fn, "set-region-site", s.Pos(), "SetRegion in "+kit.FuncName(fn), "a new place changes the region a call is addressed to")
 			}
 		}
-		var rpcParam *ssa.Parameter
-		for _, pa := range gr.Params {
-			if pa.Name() == "rpc" {
-				rpcParam = pa
-			}
-		}
+		rpcParam := paramOfType(gr, "/hrpc.Call", 0)
 		res := kit.Calls(gr, kit.M("", "*client", "getRegionForRpc"))
 		sets := kit.Calls(gr, hrpcCall+"SetRegion")
 		if len(res) != 1 || len(sets) != 1 || rpcParam == nil {
@@ -257,15 +252,8 @@ func runC01(c *kit.Ctx) {
 		idx    int
 	}{{grc, kit.M("", "*keyRegionCache", "get"), 1}, {ml, kit.M("region", "", "ParseRegionInfo"), 0}}
 	for _, v := range validators {
-		var tableP, keyP *ssa.Parameter
-		for _, pa := range v.fn.Params {
-			if pa.Name() == "table" {
-				tableP = pa
-			}
-			if pa.Name() == "key" {
-				keyP = pa
-			}
-		}
+		// (table, key) are the first and second []byte parameters
+		tableP, keyP := paramOfType(v.fn, "[]byte", 0), paramOfType(v.fn, "[]byte", 1)
 		src := kit.Calls(v.fn, v.source)
 		if len(src) != 1 || tableP == nil || keyP == nil {
 			c.Unk(v.fn, "validator-shape", v.fn.Pos(), "validator no longer obtains the region from "+kit.ShortName(v.source)+" with parameters table/key")
@@ -335,12 +323,7 @@ func runC01(c *kit.Ctx) {
 	}
 	// the call's own table/key flow unchanged into the validators
 	{
-		var rpcP *ssa.Parameter
-		for _, pa := range grf.Params {
-			if pa.Name() == "rpc" {
-				rpcP = pa
-			}
-		}
+		rpcP := paramOfType(grf, "/hrpc.Call", 0)
 		argIs := func(v ssa.Value, method string) bool {
 			call, ok := kit.Strip(v).(*ssa.Call)
 			return ok && kit.CalleeName(call) == hrpcCall+method && call.Call.Value == ssa.Value(rpcP)
